@@ -25,19 +25,16 @@ def P(pid, level, **kw):
     PROPS[pid] = d
 
 
-P("C01", "proof",
+P("C01", "proof", kani={"timeout": "600s", "compile_clause": True},
   unbounded="all operands, all 22 operators: spelling -> Combinator -> constructor -> emitted tokens == documented call",
   bounded="operator adjacency / chain length (Kani programs)",
   not_decided="left-to-right composition for chains outside the enumerated family; that parse_until applies the table (C14)")
-P("C02", "proof",
+P("C02", "proof", kani={"timeout": "600s", "compile_clause": True},
   unbounded="the ten wrapper operators; placeholder builder; replace preserves operator and restores all operands",
   bounded="nesting programs (Kani)")
 P("C07", "proof",
   unbounded="alias part: the 12 Config literals equal the documented triples, so every alias has its target's Config for every input",
   not_decided="runtime agreement of spawn variants under thread/task schedules")
-P("C11", "proof",
-  unbounded="which operators hoist (is_replaceable), operands exposed and restored in order (inner_exprs / replace_inner_exprs)",
-  bounded="placement order of hoisted definitions (Kani programs)")
 
 NOT_APPLICABLE = {
     "C08": "needs std::thread semantics (n live threads, run-time names): Kani has no thread support, Verus has no std::thread model, and the name is computed by code that exists only inside a quote! string",
@@ -64,3 +61,20 @@ P("C09", "model_checking", kani={"timeout": "1200s"},
 P("C03", "model_checking", kani={"timeout": "1200s"},
   bounded="sync: profiles n<=3 d<=3 with 7 operator kinds rotating over positions (incl. deferred error operators), exact staged trace; async: same gate programs as C09, monotone step numbers in the trace",
   not_decided="OS-thread interleavings and tokio task schedules (Kani has no thread support)")
+
+P("C10", "model_checking", kani={"timeout": "600s", "compile_clause": True},
+  bounded="every operator with logging callbacks: exact callback trace == documented chain's trace; move-only Tok programs: live()==0 after the result is dropped; block operands inside wrappers evaluated once",
+  not_decided="programs outside the enumerated family")
+P("C11", "proof", kani={"timeout": "600s", "compile_clause": True},
+  unbounded="which operators hoist (is_replaceable), operands exposed and restored in order (inner_exprs / replace_inner_exprs)",
+  bounded="placement order of hoisted definitions: exact capture/callback trace for all hoisting operators rotating over positions, n<=3, d<=3, nested wrappers, both operands of fold/try_fold")
+
+P("C12", "model_checking", kani={"timeout": "600s", "compile_clause": True},
+  bounded="n<=3, d<=3, subsets of named branches (quick: 6 masks per profile), every later step has a capture reading a name; 4 executable macro kinds",
+  not_decided="spawn kinds")
+P("C13", "model_checking", kani={"timeout": "600s"},
+  bounded="every legal (kind x handler) for the 4 executable kinds, n<=3, handler at end / between branches, failure flags symbolic; handler call count, argument order, wrapping, awaited value",
+  not_decided="spawn kinds")
+P("C16", "model_checking", kani={"timeout": "600s"},
+  bounded="logging joiner (macro form) on 8 depth profiles eager/lazy; transposing joiner with transpose_results(false) on 6 profiles; futures_crate_path via a re-export; all four options together",
+  not_decided="spawn kinds")
